@@ -378,7 +378,11 @@ def run_task(ctx, task, **kw):
         raise core.HarnessError(f"unknown task {task}")
     ebd.ensure_generated()
     try:
-        core.hyp_run(ctx, ER.programs(), lambda p: check_program(ctx, p), kw["examples"], chunk=40)
+        def one(p):
+            if not ctx.out_of_time():      # budget guard per program (chunks start with hypothesis' minimal example,
+                check_program(ctx, p)      # so they are kept large and the guard sits here instead)
+
+        core.hyp_run(ctx, ER.programs(), one, kw["examples"], chunk=kw["examples"])
     finally:
         ER.shutdown_daemons()
 
